@@ -558,6 +558,13 @@ def _cb_discard_scenario(res, c):
             elif c["outer"] is None and not c["second_queued"] and ccalls[0][2] != ["triggered"]:
                 # (a queued watcher runs inside a batch of its own: a trigger issued there is KF-C04-1's subject)
                 res.fail("C04.event_type", f"cb_discard {c!r}, round {k}: the triggered event for c has type {ccalls[0][2]!r}")
+            if c["first_queued"] and not c["second_queued"] and c["outer"] is None and bcalls and ccalls:
+                # what the queued first watcher assigned is announced once all the watchers of a have run: after the trigger
+                # the second one issued in its turn
+                if log.index(bcalls[0]) < log.index(ccalls[0]):
+                    res.fail("C04.ran_while_context_open", f"cb_discard {c!r}, round {k}: the assignment of b made by the queued first "
+                                                           f"watcher was announced before the later watcher of a had finished "
+                                                           f"(its param.trigger('c') flushed the queue): {log!r}")
             if any(ty == "triggered" for e in bcalls for ty in e[2]):
                 res.fail("C04.event_type", f"cb_discard {c!r}, round {k}: the assignment of b made by the first watcher was delivered "
                                            f"as 'triggered' because another watcher triggered c meanwhile: {bcalls!r}")
